@@ -30,6 +30,10 @@ type Tunnel struct {
 	// User
 	User identity.Identity
 
+	// owner is the user name the request that created the tunnel was authenticated as. Unlike
+	// User it never changes, so later requests with the same connection id can be compared to it
+	owner string
+
 	// rwc is the underlying connection to the remote desktop server.
 	// It is of the type *net.TCPConn
 	rwc net.Conn
